@@ -12,14 +12,16 @@ def sixOf (d : DT) : Nat × Nat × Nat × Nat × Nat × Nat :=
   (d.y.toNat, d.m.toNat, d.d.toNat, d.hh.toNat, d.mm.toNat, d.ss.toNat)
 
 /-- what `rrule.__str__` reads off a rule whose `_original_rule ∪ {freq, dtstart, interval, wkst, count, until}` is `o`
-    (C01's `origArgs`): a recorded weekday `(wd, 0)` is the plain `WD`, `(wd, n)` is `WD(n)` -/
-def strInOf (o : Args) : StrIn :=
+    (C01's `origArgs`) when `calendar.firstweekday()` is `k` at the time of the call: a recorded weekday `(wd, 0)` is the
+    plain `WD`, `(wd, n)` is `WD(n)` -/
+def strInOf (k : Int) (o : Args) : StrIn :=
   { dtstart := some (sixOf o.dtstart), freq := o.freq.toNat, interval := o.interval, wkst := o.wkst.getD 0,
     count := o.count, untilV := o.untilDT.map sixOf,
     orig := { bysetpos := o.bysetpos, bymonth := o.bymonth, bymonthday := o.bymonthday, byyearday := o.byyearday,
               byeaster := o.byeaster, byweekno := o.byweekno,
               byweekday := o.byweekday.map (fun l => l.map (fun w => (w.1, if w.2 == 0 then none else some w.2))),
-              byhour := o.byhour, byminute := o.byminute, bysecond := o.bysecond } }
+              byhour := o.byhour, byminute := o.byminute, bysecond := o.bysecond },
+    fwd := k }
 
 /-- the keyword arguments `rrulestr` hands to `rrule()` (`pa`), as C01 arguments.  The two date VALUES are taken from `o`:
     that `parser.parse` reads the compact texts `showDT …` back as the datetimes they were printed from is C02's domain and is
@@ -57,11 +59,11 @@ theorem construct_wkst (o : Args) (w : Option Int) (h : w.getD 0 = o.wkst.getD 0
   | mk freq dtstart tz interval wkst count untilDT bysetpos bymonth bymonthday byyearday byeaster byweekno byweekday byhour byminute bysecond =>
     cases w <;> cases wkst <;> simp at h <;> (try subst h) <;> rfl
 
-/-- printing and reparsing gives the constructor the same arguments again, up to the spelling of the defaults
-    (`interval` 1 and `wkst` MO are not printed) -/
-theorem backArgs_argsOf (po : ParseOpts) (o : Args) (hf : 0 ≤ o.freq) (hne : NoEmptyBy o) :
-    backArgs o (argsOf po (strInOf o)) =
-      { o with wkst := if o.wkst.getD 0 != 0 then some (o.wkst.getD 0) else none } := by
+/-- printing (under ambient first weekday `k`) and reparsing gives the constructor the same arguments again, up to the
+    spelling of the defaults (`interval` 1 is not printed; `wkst` MO is not printed when the ambient first weekday is Monday) -/
+theorem backArgs_argsOf (po : ParseOpts) (k : Int) (o : Args) (hf : 0 ≤ o.freq) (hne : NoEmptyBy o) :
+    backArgs o (argsOf po (strInOf k o)) =
+      { o with wkst := if (o.wkst.getD 0 != 0 || k != 0) then some (o.wkst.getD 0) else none } := by
   have hw : ∀ l : List (Int × Int),
       (l.map (fun w => (w.1, if w.2 == 0 then (none : Option Int) else some w.2))).map (fun w => (w.1, w.2.getD 0)) = l := by
     intro l
@@ -101,68 +103,141 @@ theorem backArgs_argsOf (po : ParseOpts) (o : Args) (hf : 0 ≤ o.freq) (hne : N
     by_cases hi : interval = 1 <;> simp [hi]
 
 /-- **from the text back to the rule.**  Let `r` be the rule `rrule(**a)` builds (C01's `construct`), `o = origArgs a r`
-    what it records (`_original_rule` and the scalar attributes), and `str(r)` = `toStr (strInOf o)`.  Then `rrulestr(str(r))`
+    what it records (`_original_rule` and the scalar attributes), and `str(r)` = `toStr (strInOf 0 o)` (ambient first weekday
+    Monday, the interpreter's default).  Then `rrulestr(str(r))`
     (any `ignoretz` / `tzinfos` / `cache`, no unfold / forceset / compatible) is a single rule whose keyword arguments `pa`,
     handed to the constructor again, build exactly `r` — hence the same occurrences (C01: `iter` is a function of `r`).
     Hypotheses, all explicit:
     * `NoEmptyBy o` — no BY argument is an empty sequence: this is exactly the class of D-C13-empty-by-list, where the
       statement is FALSE on the real code;
     * `a.bysetpos ≠ some []` — C01's `construct_origArgs` has it (an empty bysetpos is dropped from `_original_rule`);
-    * `Printable (strInOf o)`, `0 ≤ o.freq` — frequency and weekday numbers in range;
+    * `Printable (strInOf 0 o)`, `0 ≤ o.freq` — frequency and weekday numbers in range;
     * the DATE VALUES: `backArgs` takes dtstart / until from `o`, i.e. it assumes `parser.parse(showDT t)` is the datetime `t`
       was printed from — that step is C02's (`parser.parse`), tied here by the correspondence and the oracle only. -/
 theorem parse_toStr_constructs_same_rule (a : Args) (r : Rule) (h : construct a = .ok r) (hsp : a.bysetpos ≠ some [])
-    (hne : NoEmptyBy (origArgs a r)) (hpr : Printable (strInOf (origArgs a r))) (hf : 0 ≤ (origArgs a r).freq)
+    (hne : NoEmptyBy (origArgs a r)) (hpr : Printable (strInOf 0 (origArgs a r))) (hf : 0 ≤ (origArgs a r).freq)
     (o : Opts) (hu : o.unfold = false) (hfs : o.forceset = false) (hc : o.compatible = false) (kw : Bool) :
-    ∃ pa dt, parseRfc (toStr (strInOf (origArgs a r))) o kw = .ok (.rule pa (some dt) o.cache) ∧
+    ∃ pa dt, parseRfc (toStr (strInOf 0 (origArgs a r))) o kw = .ok (.rule pa (some dt) o.cache) ∧
       construct (backArgs (origArgs a r) pa) = .ok r := by
-  refine ⟨argsOf o.po (strInOf (origArgs a r)), (showDT (sixOf (origArgs a r).dtstart), [], o.po), ?_, ?_⟩
+  refine ⟨argsOf o.po (strInOf 0 (origArgs a r)), (showDT (sixOf (origArgs a r).dtstart), [], o.po), ?_, ?_⟩
   · exact parseRfc_toStr _ hpr _ rfl o hu hfs hc kw
-  · rw [backArgs_argsOf o.po _ hf hne, construct_wkst _ _ (by
+  · rw [backArgs_argsOf o.po 0 _ hf hne, construct_wkst _ _ (by
       by_cases hw : (origArgs a r).wkst.getD 0 = 0 <;> simp [hw])]
     exact construct_origArgs a r h hsp
 
 /-! ### the ambient first weekday (`calendar.firstweekday()`) made explicit -/
 
-/-- **the round trip under an ambient first weekday `k`** (`calendar.setfirstweekday(k)`; `k = 0` is the interpreter's
-    default).  `r = rrule(**a)` built under ambient `k` (`constructW k a`); `str(r)` does not depend on `k`; the reparsed
-    arguments are handed to the constructor under the SAME ambient `k`.  The rule comes back exactly when
-    `r.wkst ≠ 0 ∨ k = 0`: `__str__` omits `WKST` when `_wkst == 0`, so a rule whose week starts on Monday is rebuilt with the
-    ambient week start.  (Hypotheses otherwise as in `parse_toStr_constructs_same_rule`.) -/
-theorem parse_toStr_constructs_same_rule_ambient (k : Int) (a : Args) (r : Rule) (h : constructW k a = .ok r)
+/-- **the round trip when the text is written under ambient first weekday `k` and read under `k'`**
+    (`calendar.setfirstweekday`; 0 is the interpreter's default).  `r = rrule(**a)` built under ambient `k`
+    (`constructW k a`); `str(r)` is taken under the same `k` (since the repair of D-C13-ambient-wkst it prints `WKST=` whenever
+    `_wkst ≠ 0` OR `k ≠ 0`); the reparsed arguments are handed to the constructor under ambient `k'`.  The rule comes back
+    whenever the text carries WKST (`r.wkst ≠ 0 ∨ k ≠ 0`) — then the reading side's ambient value is irrelevant — or the
+    reading side's week starts on Monday as well (`k' = 0`).  (Hypotheses otherwise as in `parse_toStr_constructs_same_rule`.) -/
+theorem parse_toStr_constructs_same_rule_cross (k k' : Int) (a : Args) (r : Rule) (h : constructW k a = .ok r)
     (hsp : a.bysetpos ≠ some [])
-    (hne : NoEmptyBy (origArgs (resolveW k a) r)) (hpr : Printable (strInOf (origArgs (resolveW k a) r)))
-    (hf : 0 ≤ (origArgs (resolveW k a) r).freq) (hw : r.wkst ≠ 0 ∨ k = 0)
+    (hne : NoEmptyBy (origArgs (resolveW k a) r)) (hpr : Printable (strInOf k (origArgs (resolveW k a) r)))
+    (hf : 0 ≤ (origArgs (resolveW k a) r).freq) (hw : r.wkst ≠ 0 ∨ k ≠ 0 ∨ k' = 0)
     (o : Opts) (hu : o.unfold = false) (hfs : o.forceset = false) (hc : o.compatible = false) (kw : Bool) :
-    ∃ pa dt, parseRfc (toStr (strInOf (origArgs (resolveW k a) r))) o kw = .ok (.rule pa (some dt) o.cache) ∧
-      constructW k (backArgs (origArgs (resolveW k a) r) pa) = .ok r := by
+    ∃ pa dt, parseRfc (toStr (strInOf k (origArgs (resolveW k a) r))) o kw = .ok (.rule pa (some dt) o.cache) ∧
+      constructW k' (backArgs (origArgs (resolveW k a) r) pa) = .ok r := by
   have h' : construct (resolveW k a) = .ok r := h
   have hsp' : (resolveW k a).bysetpos ≠ some [] := hsp
-  refine ⟨argsOf o.po (strInOf (origArgs (resolveW k a) r)), (showDT (sixOf (origArgs (resolveW k a) r).dtstart), [], o.po), ?_, ?_⟩
+  refine ⟨argsOf o.po (strInOf k (origArgs (resolveW k a) r)), (showDT (sixOf (origArgs (resolveW k a) r).dtstart), [], o.po), ?_, ?_⟩
   · exact parseRfc_toStr _ hpr _ rfl o hu hfs hc kw
-  · show construct (resolveW k (backArgs _ _)) = _
-    rw [backArgs_argsOf o.po _ hf hne]
+  · show construct (resolveW k' (backArgs _ _)) = _
+    rw [backArgs_argsOf o.po k _ hf hne]
     have hwk : (origArgs (resolveW k a) r).wkst = some r.wkst := rfl
     show construct { origArgs (resolveW k a) r with
-        wkst := some ((if (origArgs (resolveW k a) r).wkst.getD 0 != 0 then some ((origArgs (resolveW k a) r).wkst.getD 0) else none).getD k) } = _
+        wkst := some ((if ((origArgs (resolveW k a) r).wkst.getD 0 != 0 || k != 0) then some ((origArgs (resolveW k a) r).wkst.getD 0) else none).getD k') } = _
     rw [construct_wkst _ _ (by
       rw [hwk]
       simp only [Option.getD_some]
-      rcases hw with hw | hw
-      · simp [hw]
-      · subst hw; by_cases h0 : r.wkst = 0 <;> simp [h0])]
+      by_cases h0 : r.wkst = 0
+      · by_cases hk : k = 0
+        · rcases hw with hw | hw | hw
+          · exact absurd h0 hw
+          · exact absurd hk hw
+          · subst hw; simp [h0, hk]
+        · simp [h0, hk]
+      · simp [h0])]
     exact construct_origArgs _ r h' hsp'
 
-/-- … and the excluded case is real: a WEEKLY rule with an explicit `wkst=MO`, built and reparsed under
-    `calendar.setfirstweekday(6)`, comes back with week start 6 (known finding D-C13-ambient-wkst) -/
+/-- **the round trip under an ambient first weekday `k`**, written and read under the SAME `k` — with NO hypothesis on the
+    week start (before the repair of D-C13-ambient-wkst it needed `r.wkst ≠ 0 ∨ k = 0`: `__str__` omitted `WKST` whenever
+    `_wkst == 0`, so a Monday-week rule was rebuilt with the ambient week start). -/
+theorem parse_toStr_constructs_same_rule_ambient (k : Int) (a : Args) (r : Rule) (h : constructW k a = .ok r)
+    (hsp : a.bysetpos ≠ some [])
+    (hne : NoEmptyBy (origArgs (resolveW k a) r)) (hpr : Printable (strInOf k (origArgs (resolveW k a) r)))
+    (hf : 0 ≤ (origArgs (resolveW k a) r).freq)
+    (o : Opts) (hu : o.unfold = false) (hfs : o.forceset = false) (hc : o.compatible = false) (kw : Bool) :
+    ∃ pa dt, parseRfc (toStr (strInOf k (origArgs (resolveW k a) r))) o kw = .ok (.rule pa (some dt) o.cache) ∧
+      constructW k (backArgs (origArgs (resolveW k a) r) pa) = .ok r :=
+  parse_toStr_constructs_same_rule_cross k k a r h hsp hne hpr hf
+    (by by_cases hk : k = 0 <;> simp [hk]) o hu hfs hc kw
+
+/-! ### occurrences (C13 ∘ C01's iteration model), naive start -/
+
+/-- the keyword arguments `rrulestr` hands to `rrule()` for a text whose DTSTART line has NO zone (no TZID parameter, no `Z`):
+    as `backArgs`, with the start's zone tag NAIVE (`tz := 0`) — what the reparsed start really is, whatever the rule's was -/
+def backArgsNaive (o : Args) (pa : RArgs) : Args := { backArgs o pa with tz := 0 }
+
+theorem construct_tz {a : Args} {r : Rule} (h : construct a = .ok r) : r.tz = a.tz := by
+  obtain ⟨_, _, _, _, _, _, _, _, _, _, hr⟩ := RRule.construct_ok a r h
+  rw [hr]
+
+/-- **same occurrences**: for a rule with a NAIVE start built under ambient first weekday `k`, `rrulestr(str(rule))` (read under
+    the same `k`) hands the constructor arguments — with a naive start, as the DTSTART text carries no zone — that build a
+    rule `r'` whose iteration (C01's `iter` / `iterDT`: the values yielded during the first `fuel` periods and how the
+    generator ended) equals the rule's for EVERY fuel: the same occurrences in the same order, the same end. -/
+theorem same_occurrences_ambient (k : Int) (a : Args) (r : Rule) (h : constructW k a = .ok r) (hnaive : a.tz = 0)
+    (hsp : a.bysetpos ≠ some [])
+    (hne : NoEmptyBy (origArgs (resolveW k a) r)) (hpr : Printable (strInOf k (origArgs (resolveW k a) r)))
+    (hf : 0 ≤ (origArgs (resolveW k a) r).freq)
+    (o : Opts) (hu : o.unfold = false) (hfs : o.forceset = false) (hc : o.compatible = false) (kw : Bool) :
+    ∃ pa r', parseRfc (toStr (strInOf k (origArgs (resolveW k a) r))) o kw =
+        .ok (.rule pa (some (showDT (sixOf r.dtstart), [], o.po)) o.cache) ∧
+      constructW k (backArgsNaive (origArgs (resolveW k a) r) pa) = .ok r' ∧
+      ∀ fuel, RRule.iter r' fuel = RRule.iter r fuel ∧ RRule.iterDT r' fuel = RRule.iterDT r fuel := by
+  obtain ⟨pa, dt, hp, hc'⟩ := parse_toStr_constructs_same_rule_ambient k a r h hsp hne hpr hf o hu hfs hc kw
+  have hp2 := parseRfc_toStr _ hpr _ rfl o hu hfs hc kw
+  rw [hp2] at hp
+  simp only [Except.ok.injEq, Parsed.rule.injEq] at hp
+  obtain ⟨hpa, hdt, _⟩ := hp
+  have htz : (origArgs (resolveW k a) r).tz = 0 := by
+    show r.tz = 0
+    rw [construct_tz (a := resolveW k a) h]; exact hnaive
+  have hb : backArgsNaive (origArgs (resolveW k a) r) pa = backArgs (origArgs (resolveW k a) r) pa := by
+    unfold backArgsNaive
+    have : (backArgs (origArgs (resolveW k a) r) pa).tz = 0 := htz
+    cases hba : backArgs (origArgs (resolveW k a) r) pa
+    rw [hba] at this
+    simp only at this
+    subst this
+    rfl
+  refine ⟨pa, r, ?_, by rw [hb]; exact hc', fun _ => ⟨rfl, rfl⟩⟩
+  rw [hp2, ← hpa]
+  rfl
+
+/-- the former counterexample of D-C13-ambient-wkst, now a regression fact: a WEEKLY rule with an explicit `wkst=MO`, built,
+    printed and reparsed under `calendar.setfirstweekday(6)`, comes back with week start 0 and is the same rule (before
+    the repair the third component was `(0, 6, false)`) -/
 def ambientWitness : Args :=
   { freq := 2, dtstart := ⟨1997, 8, 5, 9, 0, 0, 0⟩, interval := 2, wkst := some 0, count := some 4,
     byweekday := some [(1, 0), (6, 0)] }
 
-theorem ambient_wkst_counterexample :
+theorem ambient_wkst_witness_roundtrips :
     (do let r ← constructW 6 ambientWitness
         let o := origArgs (resolveW 6 ambientWitness) r
-        let r' ← constructW 6 (backArgs o (argsOf {} (strInOf o)))
+        let r' ← constructW 6 (backArgs o (argsOf {} (strInOf 6 o)))
+        pure (r.wkst, r'.wkst, (argsOf {} (strInOf 6 o)).wkst, decide (r' = r))) = .ok (0, 0, some 0, true) := by decide +kernel
+
+/-- … while a text written under the default first weekday (no `WKST=`) and read under another one is still rebuilt with the
+    reader's week start: the text of a Monday-week rule written under `k = 0` is ambient-dependent on the reading side
+    (RFC 5545: WKST defaults to MO; `rrule()` documents `calendar.firstweekday()` instead) -/
+theorem cross_ambient_counterexample :
+    (do let r ← constructW 0 ambientWitness
+        let o := origArgs (resolveW 0 ambientWitness) r
+        let r' ← constructW 6 (backArgs o (argsOf {} (strInOf 0 o)))
         pure (r.wkst, r'.wkst, decide (r' = r))) = .ok (0, 6, false) := by decide +kernel
 
 end RRuleStr
